@@ -25,7 +25,15 @@ RULE = (
     "(C-ordered factors), Tucker tensors with a grown core (copy=False) or a sparse core stored in reverse order with "
     "explicit zeros; orders / shapes / old_modes are passed in every accepted spelling (ndarray of several integer "
     "dtypes, row matrix, list, tuple, list of numpy integers, scalar for one mode); every operation is called twice "
-    "on the same object (same answer, operand untouched); Kruskal / Tucker data are also scaled by 1e+6 / 1e-6."
+    "on the same object (same answer, operand untouched); Kruskal / Tucker data are also scaled by 1e+6 / 1e-6.  "
+    "Round 3: (several live objects) at the end of every dense / sparse cell the result is assigned to and the operand "
+    "judged, then the operand is assigned to and the result judged; a permuted Kruskal tensor is re-parameterised in "
+    "place, the core of a permuted Tucker tensor is assigned to.  (sizes above thresholds) cell huge-modes/sptensor: "
+    "sparse tensors whose mode lengths are products of atoms from {2, 3, 4, 2**10, 2**20, 2**31, 2**31+1, 2**33-1, "
+    "2**53+1, 2**53+3, 2**60} with the element count below 2**63, subscripts at 0, n-1, n/2, n/3, 2**53+1, 2**31 - "
+    "permute / reshape (all modes regrouped from the same atoms, or a subset of modes) / squeeze judged by exact "
+    "Python-integer index arithmetic; cell many-nonzeros/sptensor: 10001 .. 50000 stored entries in unsorted order "
+    "against NumPy on the expanded array."
 )
 ASSUMPTIONS = [
     "oracle: numpy transpose/reshape/squeeze applied to the array reconstructed from the public attributes",
@@ -39,6 +47,10 @@ ASSUMPTIONS = [
     "documented as float and stay float64; float32 is left out (no rounding bound adapted to it)",
     "old_modes of sptensor.reshape is documented as ndarray or int: arrays (int64 / int32), python int and numpy "
     "integer scalars are used, no lists",
+    "several live objects: on the unchanged tree no result of permute / reshape / squeeze shares memory with its "
+    "operand (identity orders, unchanged shapes and tensors without singleton modes included)",
+    "huge modes: element counts of 2**63 and more are rejected by sptensor.reshape ('Reshape must maintain tensor "
+    "size': the count comparison overflows) and are not generated",
 ]
 
 
@@ -186,6 +198,22 @@ def _untouched(X, snap) -> bool:
     return now[0] == snap[0] and all(a.shape == b.shape and np.array_equal(a, b) for a, b in zip(now[1:], snap[1:]))
 
 
+def _independent(ctx, X, snap, R, expect, name):
+    """(round 3, several live objects) result and operand are separate objects: assign into the result and judge the
+    operand, then assign into the operand and judge the result.  Changes the operand: call it last."""
+    if expect.size == 0 or not snap[0]:
+        return
+    first_r, first_x = tuple(0 for _ in expect.shape), tuple(0 for _ in snap[0])
+    with ctx.sut(f"{name}-result.setitem"):
+        R[first_r] = 987654.0
+    ctx.check(_untouched(X, snap), f"{name}-result-does-not-alias-operand")
+    with ctx.sut(f"{name}-operand.setitem"):
+        X[first_x] = -123456.0
+    exp2 = np.array(expect, dtype=float)
+    exp2[first_r] = 987654.0
+    ctx.check(ref.same_exact(ref.den(R), exp2), f"{name}-operand-does-not-alias-result", ref.diff_info(ref.den(R), exp2))
+
+
 ORDER_FORMS = ["array", "list", "tuple", "npint-list", "row2d", "int32", "uint8"]
 
 
@@ -311,6 +339,7 @@ def _check_permute_exact(ctx, X, A, p, kind, pform="array", ez=False):
     ctx.check(_untouched(X, snap), "permute-leaves-operand")
     # the first result is not disturbed by the later calls either
     ctx.check(ref.same_exact(ref.den(R), expect), "permute-result-stable")
+    _independent(ctx, X, snap, R, expect, "permute")
 
 
 @cell("C07/permute/tensor", strategy=_perm_dense, quick=1500, thorough=20000)
@@ -418,6 +447,12 @@ def permute_ktensor(ctx, case):
     ctx.check(ok2, "permute-second-call-same")
     ctx.check(np.array_equal(K.weights, w0) and all(np.array_equal(a, b) for a, b in zip(K.factor_matrices, f0)),
               "permute-leaves-operand")
+    # (round 3) the result is an object of its own: re-parameterising it in place does not reach the operand
+    with ctx.sut("ktensor.permute-result-then-normalize-in-place"):
+        R.normalize(weight_factor="all", normtype=1)
+        R.fixsigns()
+    ctx.check(np.array_equal(K.weights, w0) and all(np.array_equal(a, b) for a, b in zip(K.factor_matrices, f0)),
+              "permute-result-does-not-alias-operand")
     # (dense / sparse holders of the same data are compared with the same reference in their own cells)
 
 
@@ -490,6 +525,11 @@ def permute_ttensor(ctx, case):
         R2 = T.permute(list(p))
     ctx.check(isinstance(R2, ttb.ttensor) and ref.same_exact(ref.den(R2), got), "permute-second-call-same")
     ctx.check(_untouched(T.core, csnap), "permute-leaves-operand")
+    # (round 3) the result has a core of its own: assigning into it does not reach the operand's core
+    if ref.prod(case["cshape"]):
+        with ctx.sut("ttensor.permute-result-core.setitem"):
+            R.core[tuple(0 for _ in case["cshape"])] = 987654.0
+        ctx.check(_untouched(T.core, csnap), "permute-result-does-not-alias-operand")
 
 
 # --------------------------------------------------------------------------
@@ -570,6 +610,7 @@ def reshape_tensor(ctx, case):
     ctx.check(isinstance(R2, ttb.tensor) and tup(R2.shape) == tuple(new) and ref.same_exact(ref.den(R2), expect),
               "reshape-second-call-same")
     ctx.check(ref.same_exact(ref.den(R), expect), "reshape-result-stable")
+    _independent(ctx, X, snap, R, expect, "reshape")
 
 
 @st.composite
@@ -641,6 +682,7 @@ def reshape_sptensor(ctx, case):
               "reshape-second-call-same")
     ctx.check(_untouched(X, snap), "reshape-leaves-operand")
     ctx.check(ref.same_exact(ref.den(R), expect), "reshape-result-stable")
+    _independent(ctx, X, snap, R, expect, "reshape")
 
 
 def _enum_reshape(tier):
@@ -763,3 +805,208 @@ def squeeze(ctx, case):
     for nm, Y in (("squeeze-second-call-same", R2), ("squeeze-idempotent", R3)):
         ctx.check(type(Y) is type(X) and tup(Y.shape) == expect.shape and ref.same_exact(ref.den(Y), expect), nm)
     ctx.check(ref.same_exact(ref.den(R), expect), "squeeze-result-stable")
+    _independent(ctx, X, snap, R, expect, "squeeze")
+
+
+# --------------------------------------------------------------------------
+# (round 3) sizes above internal thresholds: huge sparse modes, many stored entries
+# --------------------------------------------------------------------------
+# Sparse tensors are made for modes far longer than anything that fits a dense array: mode lengths above 2**31 (int32)
+# and above 2**53 (where float64 no longer holds every integer), with the element count kept below 2**63 so that a
+# linear index still fits int64.  The oracle is exact Python-integer index arithmetic on the stored subscripts (no
+# dense array).  A second cell uses moderately large tensors with 1e4 .. 5e4 stored entries against NumPy on the
+# expanded array.
+
+_ATOMS = [2, 2, 4, 3, 2 ** 10, 2 ** 20, 2 ** 31, 2 ** 31 + 1, 2 ** 33 - 1, 2 ** 53 + 1, 2 ** 53 + 3, 2 ** 60]
+
+
+def _py_lin(sub, shape):
+    i, m = 0, 1
+    for s, n in zip(sub, shape):
+        i += int(s) * m
+        m *= int(n)
+    return i
+
+
+def _py_unlin(i, shape):
+    out = []
+    for n in shape:
+        out.append(i % int(n))
+        i //= int(n)
+    return out
+
+
+@st.composite
+def _huge_case(draw, tier):
+    # atoms whose product stays below 2**63; modes are products of adjacent atoms
+    atoms, total = [], 1
+    for _ in range(draw(st.integers(1, 6))):
+        cand = [a for a in _ATOMS if total * a < 2 ** 63]
+        if not cand:
+            break
+        a = draw(st.sampled_from(cand))
+        atoms.append(a)
+        total *= a
+    def group(seq, cuts):
+        out, cur = [], 1
+        for i, a in enumerate(seq):
+            cur *= a
+            if i in cuts or i == len(seq) - 1:
+                out.append(cur)
+                cur = 1
+        return out
+    cuts = set(draw(st.lists(st.integers(0, max(0, len(atoms) - 2)), max_size=3))) if len(atoms) > 1 else set()
+    shape = group(atoms, cuts)
+    if draw(st.booleans()):
+        shape.insert(draw(st.integers(0, len(shape))), 1)  # a singleton mode (squeeze)
+    shape = shape[:5]
+    total = ref.prod(shape)
+    nnz = draw(st.integers(0, 5))
+    subs = []
+    for _ in range(nnz):
+        sub = []
+        for n in shape:
+            picks = [0, n - 1, n // 2, n // 3, min(n - 1, 2 ** 53 + 1), min(n - 1, 2 ** 31), draw(st.integers(0, n - 1))]
+            sub.append(int(draw(st.sampled_from(picks))))
+        if sub not in subs:
+            subs.append(sub)
+    vals = [draw(gen.NZ_INT_VALUES) for _ in subs]
+    op = draw(st.sampled_from(["permute", "reshape", "reshape", "reshape-subset", "squeeze"]))
+    c = dict(shape=[int(n) for n in shape], subs=subs, vals=vals, op=op)
+    N = len(shape)
+    if op == "permute":
+        c["perm"] = list(draw(st.permutations(range(N))))
+    elif op == "reshape":
+        seq = list(draw(st.permutations(atoms)))
+        cuts2 = set(draw(st.lists(st.integers(0, max(0, len(seq) - 2)), max_size=3))) if len(seq) > 1 else set()
+        new = group(seq, cuts2) if seq else [1]
+        c["new"] = [int(n) for n in new]
+        if ref.prod(c["new"]) != total:
+            c["new"] = [int(total)]
+    elif op == "reshape-subset":
+        om = draw(gen.mode_subset(N, 1, N))
+        sel = [shape[m] for m in om]
+        c["old_modes"] = om
+        c["new"] = [int(x) for x in (list(draw(st.permutations(sel))) if draw(st.booleans()) else [ref.prod(sel)])]
+    return c
+
+
+@cell("C07/huge-modes/sptensor", strategy=_huge_case, quick=500, thorough=8000)
+def huge_modes_sptensor(ctx, case):
+    shape, subs, vals = case["shape"], case["subs"], case["vals"]
+    N, op = len(shape), case["op"]
+    big = max(shape)
+    ctx.label("op-" + op, f"order{N}", "mode>2^53" if big > 2 ** 53 else ("mode>2^31" if big > 2 ** 31 else "modes-small"),
+              "count>2^53" if ref.prod(shape) > 2 ** 53 else "count<=2^53", f"nnz{min(len(subs), 3)}")
+    ctx.nt = big > 2 ** 31 and len(subs) >= 1
+    if subs:
+        X = ttb.sptensor(np.array(subs, dtype=np.int64).reshape(len(subs), N), np.array(vals, dtype=float).reshape(-1, 1),
+                         tuple(shape))
+    else:
+        X = ttb.sptensor(shape=tuple(shape))
+    entries = {tuple(s): float(v) for s, v in zip(subs, vals)}
+    if op == "permute":
+        p = case["perm"]
+        with ctx.sut("sptensor.permute"):
+            R = X.permute(np.array(p))
+        eshape = [shape[i] for i in p]
+        expect = {tuple(s[i] for i in p): v for s, v in entries.items()}
+    elif op == "squeeze":
+        with ctx.sut("sptensor.squeeze"):
+            R = X.squeeze()
+        keep = [i for i, n in enumerate(shape) if n != 1]
+        if not keep:
+            ctx.require(isinstance(R, (int, float, np.integer, np.floating)), "squeeze-all-singleton-gives-scalar", type(R).__name__)
+            ctx.check(float(R) == float(sum(entries.values())), "squeeze-scalar-value", R)
+            return
+        eshape = [shape[i] for i in keep]
+        expect = {tuple(s[i] for i in keep): v for s, v in entries.items()}
+    else:
+        new = case["new"]
+        om = case.get("old_modes")
+        sel = list(range(N)) if om is None else list(om)
+        keep = [m for m in range(N) if m not in sel]
+        with ctx.sut("sptensor.reshape"):
+            R = X.reshape(tuple(new)) if om is None else X.reshape(tuple(new), np.array(om))
+        eshape = [shape[m] for m in keep] + list(new)
+        expect = {}
+        for s, v in entries.items():
+            lin = _py_lin([s[m] for m in sel], [shape[m] for m in sel])
+            expect[tuple([s[m] for m in keep] + _py_unlin(lin, new))] = v
+    ctx.require(isinstance(R, ttb.sptensor), f"{op}-returns-sptensor", type(R).__name__)
+    ctx.check([int(n) for n in R.shape] == [int(n) for n in eshape], "huge-shape", f"{tuple(R.shape)} vs {eshape}")
+    if R.subs.size:
+        ctx.require(np.issubdtype(np.asarray(R.subs).dtype, np.integer), "huge-subscripts-are-integers", str(R.subs.dtype))
+        got = {tuple(int(i) for i in r): float(v) for r, v in zip(np.asarray(R.subs), np.asarray(R.vals).reshape(-1))}
+        ctx.check(len(got) == R.subs.shape[0], "huge-distinct-subscripts")
+    else:
+        got = {}
+    ctx.check(got == expect, "huge-index-map", f"got {sorted(got.items())[:3]} expect {sorted(expect.items())[:3]}")
+    # the operand is untouched
+    now = {tuple(int(i) for i in r): float(v) for r, v in zip(np.asarray(X.subs), np.asarray(X.vals).reshape(-1))} if X.subs.size else {}
+    ctx.check(now == entries and [int(n) for n in X.shape] == shape, "huge-leaves-operand")
+
+
+@st.composite
+def _many_case(draw, tier):
+    shape = draw(st.sampled_from([[300, 200, 30], [1500, 900], [60, 50, 40, 10], [120000, 7], [250, 1, 400, 9]]))
+    total = ref.prod(shape)
+    nnz = draw(st.sampled_from([10001, 16385, 20000, 33000, 50000]))
+    seed = draw(st.integers(0, 2 ** 16))
+    op = draw(st.sampled_from(["permute", "reshape", "reshape-subset", "squeeze"]))
+    c = dict(shape=shape, nnz=min(nnz, total // 2), seed=seed, op=op)
+    N = len(shape)
+    if op == "permute":
+        c["perm"] = list(draw(st.permutations(range(N))))
+    elif op == "reshape":
+        c["new"] = draw(st.sampled_from([[total], [total // 2, 2], [2, total // 4, 2], [10, total // 10]]))
+    elif op == "reshape-subset":
+        c["old_modes"] = draw(gen.mode_subset(N, 1, N - 1))
+        c["new"] = [ref.prod(shape[m] for m in c["old_modes"])]
+    return c
+
+
+@cell("C07/many-nonzeros/sptensor", strategy=_many_case, quick=3, thorough=40)
+def many_nonzeros_sptensor(ctx, case):
+    """1e4 .. 5e4 stored entries (positions: a fixed-stride walk through the linear indices, stored in that - unsorted -
+    order), judged against NumPy on the expanded array"""
+    shape, nnz, op = case["shape"], case["nnz"], case["op"]
+    total = ref.prod(shape)
+    stride = 2 * (case["seed"] % 1000) + 7919
+    while np.gcd(stride, total) != 1:
+        stride += 2
+    lin = (case["seed"] + stride * np.arange(nnz, dtype=np.int64)) % total
+    subs = np.array(np.unravel_index(lin, tuple(shape), order="F")).T.astype(np.int64)
+    vals = ((np.arange(nnz) % 13) - 6.0)
+    vals[vals == 0] = 7.0
+    X = ttb.sptensor(subs.copy(), vals.reshape(-1, 1).copy(), tuple(shape))
+    A = np.zeros(tuple(shape))
+    A[tuple(subs.T)] = vals
+    N = len(shape)
+    ctx.label("op-" + op, f"nnz>={nnz // 10000}e4")
+    ctx.nt = True
+    if op == "permute":
+        with ctx.sut("sptensor.permute"):
+            R = X.permute(np.array(case["perm"]))
+        expect = np.transpose(A, case["perm"])
+    elif op == "squeeze":
+        with ctx.sut("sptensor.squeeze"):
+            R = X.squeeze()
+        expect = np.squeeze(A)
+    else:
+        om = case.get("old_modes")
+        sel = list(range(N)) if om is None else list(om)
+        keep = [m for m in range(N) if m not in sel]
+        with ctx.sut("sptensor.reshape"):
+            R = X.reshape(tuple(case["new"])) if om is None else X.reshape(tuple(case["new"]), np.array(om))
+        expect = np.transpose(A, keep + sel).reshape(tuple([shape[m] for m in keep] + list(case["new"])), order="F")
+    ctx.require(isinstance(R, ttb.sptensor), f"{op}-returns-sptensor", type(R).__name__)
+    ctx.require(tup(R.shape) == expect.shape, "many-shape", f"{tup(R.shape)} vs {expect.shape}")
+    rs, rv = np.asarray(R.subs), np.asarray(R.vals).reshape(-1)
+    ctx.require(rs.ndim == 2 and rs.shape == (nnz, expect.ndim) and np.issubdtype(rs.dtype, np.integer)
+                and bool((rs >= 0).all()) and bool((rs < np.array(expect.shape)).all()), "many-result-wellformed", rs.shape)
+    B = np.zeros(expect.shape)
+    np.add.at(B, tuple(rs.T), rv)
+    ctx.check(len(np.unique(np.ravel_multi_index(tuple(rs.T), expect.shape))) == nnz, "many-distinct-subscripts")
+    ctx.check(np.array_equal(B, expect), "many-index-map", ref.diff_info(B, expect))
+    ctx.check(np.array_equal(np.asarray(X.subs), subs) and np.array_equal(np.asarray(X.vals).reshape(-1), vals), "many-leaves-operand")
